@@ -9,8 +9,8 @@
 #include <stdint.h>
 
 typedef unsigned long ul;
-enum { F_ADDASSIGN, F_PREINC, F_POSTINC, F_SUBASSIGN, F_FETCHADD, F_FETCHSUB, F_MULODD, F_XOR, F_ORAND, F_EXCHANGE, F_CASLOOP, NFAM };
-static const char *famname[] = {"op=add", "++pre", "post++", "op=sub", "fetch_add", "fetch_sub", "op=mul-odd", "op=xor", "fetch_or/and", "exchange", "cas-loop"};
+enum { F_ADDASSIGN, F_PREINC, F_POSTINC, F_SUBASSIGN, F_FETCHADD, F_FETCHSUB, F_MULODD, F_XOR, F_ORAND, F_EXCHANGE, F_CASLOOP, F_CLAIM, NFAM };
+static const char *famname[] = {"op=add", "++pre", "post++", "op=sub", "fetch_add", "fetch_sub", "op=mul-odd", "op=xor", "fetch_or/and", "exchange", "cas-loop", "claim-release"};
 static const char *wname[] = {"w1", "w2", "w4", "w8", "w1s", "w8s", "w4member", "w8pointer"};
 static const int wbits[] = {8, 16, 32, 64, 8, 64, 32, 64};
 static const char *stname[] = {"static", "automatic", "heap"};
@@ -18,7 +18,7 @@ static const char *stname[] = {"static", "automatic", "heap"};
 #define DECL(S) \
   void w_addassign_##S(void *, long, ul *); void w_preinc_##S(void *, long, ul *); void w_postinc_##S(void *, long, ul *); void w_subassign_##S(void *, long, ul *); \
   void w_fetchadd_##S(void *, long, ul *); void w_fetchsub_##S(void *, long, ul *); void w_mulodd_##S(void *, long, ul *); void w_xor_##S(void *, long, ul *, ul); \
-  void w_orand_##S(void *, long, ul *, ul); void w_exchange_##S(void *, long, ul *, ul); long w_casloop_##S(void *, long, ul *, long);
+  void w_orand_##S(void *, long, ul *, ul); void w_exchange_##S(void *, long, ul *, ul); long w_casloop_##S(void *, long, ul *, long); void w_claim_##S(void *, long, ul *, ul);
 DECL(u8) DECL(u16) DECL(u32) DECL(u64) DECL(i8) DECL(i64) DECL(m32) DECL(p64)
 void *static_object(int which);
 void with_automatic(int which, void (*run)(void *obj, void *ctx), void *ctx);
@@ -27,7 +27,7 @@ typedef void (*fn3)(void *, long, ul *);
 typedef void (*fn4)(void *, long, ul *, ul);
 typedef long (*fncas)(void *, long, ul *, long);
 #define TAB(name) { (void *)w_##name##_u8, (void *)w_##name##_u16, (void *)w_##name##_u32, (void *)w_##name##_u64, (void *)w_##name##_i8, (void *)w_##name##_i64, (void *)w_##name##_m32, (void *)w_##name##_p64 }
-static void *table[NFAM][8] = { TAB(addassign), TAB(preinc), TAB(postinc), TAB(subassign), TAB(fetchadd), TAB(fetchsub), TAB(mulodd), TAB(xor), TAB(orand), TAB(exchange), TAB(casloop) };
+static void *table[NFAM][8] = { TAB(addassign), TAB(preinc), TAB(postinc), TAB(subassign), TAB(fetchadd), TAB(fetchsub), TAB(mulodd), TAB(xor), TAB(orand), TAB(exchange), TAB(casloop), TAB(claim) };
 
 static int ncpu_avail, cpus[256];
 static pthread_barrier_t bar;
@@ -47,6 +47,7 @@ static void *thread_main(void *arg) {
   case F_ORAND: ((fn4)f)(j->obj, j->n, j->log, 1ul << (j->tid % wbits[j->w])); j->loglen = 2 * j->n; break;
   case F_EXCHANGE: ((fn4)f)(j->obj, j->n, j->log, 1 + (ul)j->tid * j->n); j->loglen = j->n; break;
   case F_CASLOOP: j->loglen = 3 * ((fncas)f)(j->obj, j->n, j->log, j->cap); break;
+  case F_CLAIM: ((fn4)f)(j->obj, j->n, j->log, 1 + (ul)j->tid); j->loglen = 4; break;
   default: ((fn3)f)(j->obj, j->n, j->log); j->loglen = j->n; break;
   }
   return 0;
@@ -211,6 +212,15 @@ static void run_phase_on(void *obj, void *ctx) {
       if (final != ((ul)total & M)) { snprintf(det, sizeof det, "final %lu expected %lu", final, (ul)total & M); violation(p, "lost-update", det); }
     }
     free(succ);
+  } else if (p->fam == F_CLAIM) {
+    ul won = 0, lost = 0, imp = 0, wrong = 0;
+    for (int t = 0; t < N; t++) { won += jobs[t].log[0]; lost += jobs[t].log[1]; imp += jobs[t].log[2]; wrong += jobs[t].log[3]; }
+    casfail = lost;
+    handoffs = lost;          // every failed claim met another owner: evidence of real interleaving
+    if (won + lost != (ul)total) violation(p, "log-length", 0);
+    if (imp) { snprintf(det, sizeof det, "%lu strong compare-exchanges failed and reported the expected value 0 as the value found", imp); violation(p, "cas-fail-without-difference", det); }
+    if (wrong) { snprintf(det, sizeof det, "%lu owners found somebody else's mark in the cell they had claimed", wrong); violation(p, "cas-double-success", det); }
+    if (final != 0) { snprintf(det, sizeof det, "final %lu expected 0", final); violation(p, "lost-update", det); }
   }
   total_handoffs += handoffs;
   total_casfail += casfail;
@@ -243,7 +253,12 @@ int main(int argc, char **argv) {
         if (fam == F_CASLOOP && p.n > 200000) p.n = 200000;
         if (p.st == 0) run_phase_on(static_object(w), &p);
         else if (p.st == 1) with_automatic(w, run_phase_on, &p);
-        else { char *h = aligned_alloc(64, 128); memset(h, 0, 128); run_phase_on(h + 64, &p); free(h); }
+        else {
+          // heap object with guard bytes on both sides: an access wider than the object shows up in them
+          unsigned char *h = aligned_alloc(64, 128); memset(h, 0xA5, 128); memset(h + 64, 0, 8); run_phase_on(h + 64, &p);
+          int nb = wbits[w] / 8; for (int g = 0; g < 128; g++) if ((g < 64 || g >= 64 + nb) && h[g] != (g >= 64 && g < 72 ? 0 : 0xA5)) { violation(&p, "neighbour-clobbered", "a byte next to the atomic object changed"); break; }
+          free(h);
+        }
         if (small) break;
       }
     }
